@@ -190,9 +190,12 @@ class QueuedState(TransferState):
 
     async def abort(self, reason: Optional[str] = None) -> bool:
         await self._cancel_transfer_tasks()
-        await _remove_local_file(self.transfer)
         self.transfer.abort_reason = reason
         await self.transfer.transition(AbortedState(self.transfer))
+        # Only remove the file after the transition: removing the file
+        # suspends and as long as the transfer is in this state a new attempt
+        # could be started for it that would no longer be cancelled
+        await _remove_local_file(self.transfer)
         return True
 
     async def pause(self) -> bool:
@@ -343,9 +346,12 @@ class IncompleteState(TransferState):
 
     async def abort(self, reason: Optional[str] = None) -> bool:
         await self._cancel_transfer_tasks()
-        await _remove_local_file(self.transfer)
         self.transfer.abort_reason = reason
         await self.transfer.transition(AbortedState(self.transfer))
+        # Only remove the file after the transition: removing the file
+        # suspends and as long as the transfer is in this state a new attempt
+        # could be started for it that would no longer be cancelled
+        await _remove_local_file(self.transfer)
         return True
 
     async def pause(self) -> bool:
